@@ -1,0 +1,39 @@
+//go:build verif
+
+package eio
+
+import (
+	"github.com/karagenc/socket.io-go/engine.io/parser"
+)
+
+// verifTransport records what is handed to Send, call by call.
+type verifTransport struct {
+	name  string
+	sends [][]*parser.Packet
+}
+
+func (t *verifTransport) Name() string { return t.name }
+func (t *verifTransport) Handshake() (*parser.HandshakeResponse, error) {
+	return nil, nil
+}
+func (t *verifTransport) Run() {}
+func (t *verifTransport) Send(packets ...*parser.Packet) {
+	cp := make([]*parser.Packet, len(packets))
+	copy(cp, packets)
+	t.sends = append(t.sends, cp)
+}
+func (t *verifTransport) Discard() {}
+func (t *verifTransport) Close()   {}
+
+// VerifWriteWritablePackets runs the client's batching routine against a recording
+// transport with the given name and returns the arguments of each transport.Send call.
+func VerifWriteWritablePackets(transportName string, maxPayload int64, packets []*parser.Packet) [][]*parser.Packet {
+	t := &verifTransport{name: transportName}
+	s := &clientSocket{
+		transport:  t,
+		maxPayload: maxPayload,
+		debug:      NewNoopDebugger(),
+	}
+	s.writeWritablePackets(packets...)
+	return t.sends
+}
